@@ -221,7 +221,7 @@ class _WFile:
                 off = self._nwritten
             r = self._f.write(data)
             self._nwritten += len(data)
-            self._f.flush()
+            # deliberately no flush: the directory monitor must see what another process would see
             ev = w.log.add('fs.write', label=self.label, path=self.name, offset=off, nbytes=len(data))
             self._osu.writes.append((ev['n'], ev['thread'], self.name, off, len(data)))
             f = d.point(key, 'after')
@@ -500,6 +500,8 @@ class StageExecutor(ThreadPoolExecutor):
         self.submitted = 0
         self.order_submitted = []
         self.order_started = []
+        self.by_type = {}
+        self.max_by_type = {}
 
         def init():
             threading.current_thread().vf_stage = stage
@@ -509,12 +511,17 @@ class StageExecutor(ThreadPoolExecutor):
     def submit(self, fn, *args, **kwargs):
         # sequence number and enqueue are one atomic step, so seq order == queue order
         with self._submit_lock:
+            tname = type(fn).__name__
             with self._cnt_lock:
                 self.outstanding += 1
                 self.submitted += 1
                 seq = self.submitted
                 if self.outstanding > self.max_outstanding:
                     self.max_outstanding = self.outstanding
+                c = self.by_type.get(tname, 0) + 1
+                self.by_type[tname] = c
+                if c > self.max_by_type.get(tname, 0):
+                    self.max_by_type[tname] = c
             self.w.log.add('exec.submit', stage_of=self.stage, seq=seq, outstanding=self.outstanding, task=type(fn).__name__)
 
             def run(*a, **k):
@@ -524,6 +531,7 @@ class StageExecutor(ThreadPoolExecutor):
                 finally:
                     with self._cnt_lock:
                         self.outstanding -= 1
+                        self.by_type[tname] -= 1
                     self.w.log.add('exec.finish', stage_of=self.stage, seq=seq, task=type(fn).__name__)
 
             try:
@@ -531,4 +539,5 @@ class StageExecutor(ThreadPoolExecutor):
             except BaseException:
                 with self._cnt_lock:
                     self.outstanding -= 1
+                    self.by_type[tname] -= 1
                 raise
